@@ -318,12 +318,42 @@ def split_case():
     return None
 
 
+def cookie_lookup_case():
+    """the client answers DBUS_COOKIE_SHA1 with the cookie stored under EXACTLY the id the server named (ids that are
+    prefixes of one another, any order in the keyring file)"""
+    import os, shutil, tempfile, time
+    from txdbus import authentication as au
+    tmp = tempfile.mkdtemp(prefix='verif_c07_')
+    try:
+        os.chmod(tmp, 0o700)
+        now = str(int(time.time())).encode('ascii')
+        entries = [(b'12', b'aa12'), (b'1', b'bb01'), (b'123', b'cc123'), (b'2', b'dd02'), (b'21', b'ee21')]
+        with open(os.path.join(tmp, 'org_freedesktop_general'), 'wb') as f:
+            for cid, ck in entries:
+                f.write(cid + b' ' + now + b' ' + ck + b'\n')
+        ca = au.ClientAuthenticator()
+        ca.cookie_dir = tmp
+        for cid, ck in entries:
+            got = ca._authGetDBusCookie(b'org_freedesktop_general', cid)
+            if got != ck:
+                return 'cookie id %r looked up in a keyring holding ids %r gives %r, stored %r' % (cid, [e[0] for e in entries], got, ck)
+        if ca._authGetDBusCookie(b'org_freedesktop_general', b'3') is not None:
+            return 'a cookie id that is not in the keyring was resolved'
+    finally:
+        shutil.rmtree(tmp, ignore_errors=True)
+    return None
+
+
 def bounded(tier, seed):
     n = 0
     n += 1
     f = split_case()
     if f:
         return n, f, {'case': 'read splitting'}
+    n += 1
+    f = cookie_lookup_case()
+    if f:
+        return n, f, {'case': 'cookie lookup'}
     mechs = [b'EXTERNAL', b'DBUS_COOKIE_SHA1', b'ANONYMOUS']
     for r in range(0, 4):
         for acc in itertools.combinations(mechs, r):
